@@ -648,7 +648,9 @@ def oracle_history(history, rec, records=None):
                     continue
                 steps.append(st)
             elif st['k'] == 'TOC':
-                continue
+                # rendering the table of contents is itself an operation of this instance (a toc entry that parses as a
+                # heading is appended to the collected headings again), so earlier TOC steps belong to the reference
+                steps.append(st)
             else:
                 return None
         return [{'k': 'CTX', 'R': block['R'], 'opts': block.get('opts') or {}, 'exit': 'normal', 'steps': steps + [{'k': 'TOC'}]}]
